@@ -26,10 +26,15 @@ type SimReader struct {
 	Reads       int
 	ZeroReads   int
 	ended       bool
+	lastZero    bool
 }
 
 type hangSentinel struct{}
 type tickSentinel struct{}
+
+func (hangSentinel) String() string {
+	return "verif: the reader keeps reading after the end of input (endless loop)"
+}
 
 const postEOFLimit = 10000
 
@@ -56,10 +61,15 @@ func (r *SimReader) Read(p []byte) (int, error) {
 	if len(r.Chunks) > 0 {
 		n = r.Chunks[r.call%len(r.Chunks)]
 		r.call++
-		if n == 0 {
-			// at most one zero read in a row, so that bufio never sees too many empty reads
+		if n == 0 && !r.lastZero {
+			// at most one zero read in a row: a Reader that returns (0, nil) forever is broken, not faulty
 			r.ZeroReads++
+			r.lastZero = true
 			return 0, nil
+		}
+		r.lastZero = false
+		if n == 0 {
+			n = 1
 		}
 	}
 	if n <= 0 {
@@ -90,6 +100,7 @@ func (r *SimReader) FiredInside() bool { return r.ended && r.Limit < len(r.Data)
 // plainSim implements verifhook.Simulator for calls that start no goroutine: seams and logical step
 // budget only.
 type plainSim struct {
+	paused     bool
 	ticks, max int64
 	mapSeed    uint64
 	hasMapSeed bool
@@ -104,7 +115,11 @@ func (p *plainSim) Panicked(v any, stack []byte) {}
 func (p *plainSim) Locked(d int)                 {}
 func (p *plainSim) Now() time.Time               { return time.Unix(p.epoch, 0).UTC() }
 func (p *plainSim) Exit(code int)                { panic(sched.ExitSentinel{Code: code}) }
+func (p *plainSim) PauseTicks(b bool)            { p.paused = b }
 func (p *plainSim) Tick() {
+	if p.paused {
+		return
+	}
 	p.ticks++
 	if p.max > 0 && p.ticks > p.max {
 		panic(tickSentinel{})
